@@ -7,6 +7,8 @@ CONSTANTS
   MaxCore = 18
   MaxP2J = 4
   MaxDim4 = 3
+  MaxRank4 = 3
+  MaxBadSize = 36
   TMaxOrder = 3
   TMaxDim = 3
   TMaxRank = 3
